@@ -219,8 +219,11 @@ def gen_doc(rng: random.Random, svc_key: str) -> Dict[str, Any]:
         insts.append({"id": rng.choice(IDS), "entries": entries, "ipfx": rng.choice([None, None, None, "rcs", "avt", "x-y"])})
     root = rng.choice([[], [["xmlns", "urn:schemas-upnp-org:metadata-1-0/RCS/"]],
                        [["xmlns", "urn:schemas-upnp-org:metadata-1-0/AVT/"], ["xmlns:rcs", "urn:x"], ["xmlns:avt", "urn:y"]]])
-    return {"kind": "doc", "svc": svc_key, "root": root, "ops": insts, "style": rng.randrange(0, 2**30),
-            "via": "notify", "sid": rng.choice(["std", "std"] + sorted(SID_STYLES))}
+    style = rng.randrange(0, 2**30)
+    # the serviceId spelling is derived from the style number, not drawn from the main stream: the documents
+    # generated for a seed stay what they were before this dimension existed
+    return {"kind": "doc", "svc": svc_key, "root": root, "ops": insts, "style": style,
+            "via": "notify", "sid": random.Random(style).choice(["std", "std"] + sorted(SID_STYLES))}
 
 
 def esc(rng: random.Random, s: str, quote: str) -> str:
